@@ -19,10 +19,16 @@ Binding (spec -> code):
  3. For each of D1, D3, D15, D16 the rule as coded today is switched on in the Impl module and TLC must
     refute the matching coherence invariant (the invariants are not vacuous).
  4. DesignSpaceSim.tla (`tlc -simulate`): longer random behaviours over larger alphabets, replayed the same way.
+ 5. Representation of gradients/Jacobians: the View has a probe Jacobian (2 x dim, distinct rows, zero entries) and
+    its images under normalize_grad / unnormalize_grad, computed once by TLC; the harness presents the matrix in
+    every representation of View.greprs (1-D rows, dense 2-D, scipy.sparse CSR / CSC / COO), densifies each result
+    and compares it with TLC's value; the argument must be unchanged and not shared with the result.  Done after
+    every first-taken transition (on a copy) and by the query kind "grad" on the object under test itself.
 Python only transports values (eighths -> floats, building arguments, comparing).
 """
 from __future__ import annotations
 
+import collections
 import copy
 import json
 import random
@@ -31,12 +37,13 @@ import time
 import traceback
 
 import numpy as np
+import scipy.sparse
 
 from ..core import Check, Graph, MachineryError, main
 from ..tlaval import _freeze
 
 INF = 1000000
-ABS_INVS = ["TypeOK", "Partition", "Algebra"]
+ABS_INVS = ["TypeOK", "Partition", "Algebra", "JacAlgebra"]
 IMPL_INVS = ["TypeOK", "IndexCoherence", "PolicyCoherence", "NormCacheCoherence", "MemberCacheCoherence",
              "CurCacheCoherence", "NormalForm"]
 MUTATORS = ("AddVariable", "RemoveVariable", "RenameVariable", "FilterVariables", "FilterDimensions",
@@ -152,6 +159,83 @@ def fill_caches(ds, state, view):
         ds.get_current_value(normalize=True)
 
 
+# ------------------------------------------------------------------ representations of a gradient / Jacobian
+
+REPR_CALLS = collections.Counter()   # vacuity evidence: calls of normalize_grad/unnormalize_grad per representation
+
+
+def present(jac, rep):
+    """The arguments (one per call) that hand the matrix `jac` to gemseo in the representation `rep`."""
+    if rep == "dense1d":
+        return [jac[r].copy() for r in range(jac.shape[0])]
+    if rep == "dense2d":
+        return [jac.copy()]
+    if rep in ("csr", "csc", "coo"):
+        return [getattr(scipy.sparse, rep + "_array")(jac)]
+    raise MachineryError(f"unknown representation {rep}")
+
+
+def parts(a):
+    """The arrays that hold the content of an argument (to see that a call left it unchanged / did not alias it)."""
+    if scipy.sparse.issparse(a):
+        if a.format in ("csr", "csc"):
+            return [a.data, a.indices, a.indptr]
+        return [a.data, *a.coords]
+    return [a]
+
+
+def frozen(a):
+    return (getattr(a, "format", "dense"), tuple(a.shape), [np.array(x, copy=True) for x in parts(a)])
+
+
+def densify(results):
+    out = []
+    for r in results:
+        r = r.toarray() if scipy.sparse.issparse(r) else np.asarray(r)
+        if r.dtype.kind == "c":
+            if np.any(r.imag != 0):
+                return None
+            r = r.real
+        out.append(r.astype(float))
+    return out[0] if len(out) == 1 and out[0].ndim == 2 else (np.vstack(out) if all(r.ndim == 1 for r in out) else None)
+
+
+def grad_representations(ds, view, report):
+    """normalize_grad / unnormalize_grad of the probe Jacobian of the View, presented in every representation TLC
+    lists (View.greprs); the densified results must be the images TLC computed (View.ngj, View.ugj; unnormalize_grad
+    only on the columns where it is defined), the argument must be unchanged and not shared with the result."""
+    jac = np.vstack([vec(r) for r in view["jac"]])
+    exp_n = np.vstack([vec(r) for r in view["ngj"]])
+    exp_u = np.vstack([vec(r) for r in view["ugj"]])
+    cols = np.array(view["ugdef"], dtype=bool)
+    for rep in view["greprs"]:
+        for fname, exp, mask in (("normalize_grad", exp_n, slice(None)), ("unnormalize_grad", exp_u, cols)):
+            args = present(jac, rep)
+            before = [frozen(a) for a in args]
+            REPR_CALLS[rep] += len(args)
+            try:
+                res = [getattr(ds, fname)(a) for a in args]
+            except Exception as ex:  # noqa: BLE001
+                if not raised_by_gemseo(ex):
+                    raise
+                report(fname + "_repr", {"exception": type(ex).__name__, "message": str(ex)[:300], "sig": {"repr": rep}})
+                continue
+            got = densify(res)
+            if got is None or got.shape != exp.shape or not np.array_equal(got[:, mask], exp[:, mask]):
+                report(fname + "_repr", {"got": repr(None if got is None else got.tolist())[:400],
+                                         "expected": repr(exp.tolist())[:400], "sig": {"repr": rep}})
+            if rep == "dense1d" and any(np.ndim(r) != 1 for r in res):
+                report(fname + "_repr", {"got": "a 1-D gradient did not come back 1-D", "sig": {"repr": rep}})
+            for a, b, r in zip(args, before, res):
+                now = frozen(a)
+                if now[:2] != b[:2] or len(now[2]) != len(b[2]) or any(
+                        x.shape != y.shape or not np.array_equal(x, y) for x, y in zip(now[2], b[2])):
+                    report(fname + "_argument_changed", {"got": "the argument was modified by the call", "sig": {"repr": rep}})
+                elif r is a or any(np.shares_memory(x, y) for x in parts(a) for y in parts(r)
+                                   if isinstance(x, np.ndarray) and isinstance(y, np.ndarray)):
+                    report(fname + "_argument_aliased", {"got": "the result shares memory with the argument", "sig": {"repr": rep}})
+
+
 # ------------------------------------------------------------------ one step on the real object
 
 def apply_action(ds, DesignSpace, act, args, src, dst, view, fails):
@@ -212,6 +296,8 @@ def apply_action(ds, DesignSpace, act, args, src, dst, view, fails):
         elif kind == "round":
             if not between(ds.round_vect(vec(view["rs"][0])), view["rlo"][0], view["rhi"][0]):
                 fails.append(("round_vect", {}))
+        elif kind == "grad":
+            grad_representations(ds, view, lambda cl, det: fails.append((cl, det)))
         else:
             if not same(ds.project_into_bounds(vec(view["xs"][2])), view["proj"][2]):
                 fails.append(("project", {}))
@@ -402,6 +488,10 @@ def project(ds0, DesignSpace, state, view):
         ds.unnormalize_vect(ds.normalize_vect(xs[3]), no_check=True), view["xs"][3],
         [(not i) and u for i, u in zip(view["isint"], ugdef)]) else "unnormalize(normalize(x)) != x")
 
+    # gradients / Jacobians in every representation (on a copy of its own: a sparse argument takes another branch)
+    ds = copy.deepcopy(ds0)
+    grad_representations(ds, view, lambda cl, det: fails.append((cl, det)))
+
     # ---- group 3: rounding and projection
     ds = copy.deepcopy(ds0)
     for p, r in enumerate(view["rs"]):
@@ -413,6 +503,20 @@ def project(ds0, DesignSpace, state, view):
     for p, y in enumerate(ys):
         clause("project_norm", lambda p=p, y=y: True if same_where(
             ds.project_into_bounds(y, normalized=True), view["p01"][p], normed) else "differs")
+
+    # all components: the normalised ones are clipped into [0,1], the others - still in the units of the variable -
+    # into the bounds of the variable (View.pnb)
+    def project_norm_bounds(p, y):
+        got = np.asarray(ds.project_into_bounds(y, normalized=True), dtype=float)
+        if same(got, view["pnb"][p]):
+            return True
+        # diagnostic for the signature: every component, normalised or not, was clipped into [0,1]
+        return {"got": repr(got.tolist()), "expected": repr(vec(view["pnb"][p]).tolist()), "probe": repr(y.tolist()),
+                "sig": {"every_component_clipped_to_unit_interval": bool(
+                    got.shape == y.shape and np.array_equal(got, np.clip(y, 0.0, 1.0)))}}
+
+    for p, y in enumerate(ys):
+        clause("project_norm_bounds", lambda p=p, y=y: project_norm_bounds(p, y))
 
     def projected_is_member():
         return eq(member(ds, ds.project_into_bounds(xs[2])), True)
@@ -505,10 +609,10 @@ def step_facts(act, args, src):
 
 QUICK = dict(nnames=3, maxvars=2, templates=[1, 2], lbvals=[16], ubvals=[16], infbounds=True,
              cur=["hi"], level=4, vias=["add", "extend"], forms=["array", "dict"],
-             qkinds=["normalize", "project"], fmodes=["inplace", "copy"])
+             qkinds=["normalize", "project", "grad"], fmodes=["inplace", "copy"])
 THOROUGH = dict(nnames=4, maxvars=3, templates=[1, 2, 3, 5], lbvals=[16], ubvals=[16], infbounds=True,
                 cur=["lo", "hi"], level=5, vias=["add", "extend", "from"], forms=["array", "dict"],
-                qkinds=["normalize", "unnormalize", "round", "project"], fmodes=["inplace", "copy"])
+                qkinds=["normalize", "unnormalize", "round", "project", "grad"], fmodes=["inplace", "copy"])
 
 
 # the life cycle of the current value: which edits happen while a value is missing, and how it becomes complete again
@@ -544,7 +648,7 @@ def views_for(ck: Check, c, states, tag):
 
 # clauses whose failure says nothing about the state of the object (pure functions of their argument on a copy):
 # the behaviour continues with the same object
-STATELESS = {"normalize_grad_frac"}
+STATELESS = {"normalize_grad_frac", "project_norm_bounds"}
 
 
 class Replayer:
@@ -758,11 +862,18 @@ def _run(ck: Check):
     ck.extra["simulation"] = {"behaviours": len(behaviours), "depth": sc["depth"], "steps": rs.n_steps,
                               "abstract_states_not_in_graph": len(new), "resynchronisations": rs.n_resync}
     ck.extra["timing"] = timing
+    reprs = {rep for v in views.values() for rep in v["greprs"]}
+    missing = sorted(rep for rep in reprs if not REPR_CALLS[rep])
+    if missing or len(reprs) < 5:
+        raise MachineryError(f"vacuity: gradient representations never presented to gemseo: {missing or reprs}")
+    ck.extra["gradient_representation_calls"] = dict(REPR_CALLS)
     ck.assumptions += [
         "exact slice: finite bounds in {0,2,4}, probe vectors and values on the 1/8 lattice (TLC checks that no division is inexact)",
         "the current value may leave the bounds after set_lower_bound/set_upper_bound (the code allows it); its normalised image is the affine image",
         "rounding ties of integer components may go either way; dict key order is not compared; dtypes are not compared",
         "check_membership: bounds only (integrality is checked by the code for dict input only and is not part of the property)",
+        "project_into_bounds(normalized=True): [0,1] on the normalised components, the bounds of the variable on the others (View.pnb, clause project_norm_bounds: D0201 on the unchanged tree)",
+        "gradient/Jacobian arguments: float64 1-D, dense 2-D (2 rows), scipy.sparse csr_array/csc_array/coo_array; the `out=` argument of unnormalize_vect/untransform_vect is not exercised (outside the property)",
         "set_current_value(dict) with a partial dict, set_*_bound with lb > ub (documented to raise) are not in the alphabet",
         "after a reported disagreement the object is rebuilt from the abstract state (caches refilled according to the Impl state)",
         "exhaustive = every transition of the depth-bounded DesignSpaceImpl graph was executed on a real DesignSpace; the simulated behaviours are a sample",
@@ -773,10 +884,10 @@ def sim_constants(ck: Check):
     if ck.thorough:
         return dict(nnames=4, maxvars=3, templates=[1, 2, 3, 4, 5, 6], lbvals=[0, 16], ubvals=[16, 32], infbounds=True,
                     cur=["lo", "hi"], level=100, vias=["add", "extend", "from"], forms=["array", "dict"],
-                    qkinds=["normalize", "unnormalize", "round", "project"], fmodes=["inplace", "copy"], depth=12, num=400)
+                    qkinds=["normalize", "unnormalize", "round", "project", "grad"], fmodes=["inplace", "copy"], depth=12, num=400)
     return dict(nnames=4, maxvars=3, templates=[1, 2, 3, 4, 5, 6], lbvals=[0, 16], ubvals=[16, 32], infbounds=True,
                 cur=["lo", "hi"], level=100, vias=["add", "extend", "from"], forms=["array", "dict"],
-                qkinds=["normalize", "unnormalize", "round", "project"], fmodes=["inplace", "copy"], depth=10, num=60)
+                qkinds=["normalize", "unnormalize", "round", "project", "grad"], fmodes=["inplace", "copy"], depth=10, num=60)
 
 
 if __name__ == "__main__":
